@@ -1215,7 +1215,9 @@ func (t *tScreen) resize() {
 	if err != nil {
 		return
 	}
-	if ws.Width == t.w && ws.Height == t.h {
+	// (engage sizes the cell buffer on its own, so compare with that too)
+	cw, ch := t.cells.Size()
+	if ws.Width == t.w && ws.Height == t.h && ws.Width == cw && ws.Height == ch {
 		return
 	}
 	t.cx = -1
